@@ -47,23 +47,27 @@ template<> struct Ad<float> {
   using C = std::less<float>; static const char* name() { return "f32"; } static const bool has_nan = true;
   static float mk(long v) { return (float)v * 0.5f; } static double key(const float& x) { return (double)x; }
   static float nan() { return std::nanf("7"); } static size_t item_bytes() { return 4; }
+  using RC = std::greater<float>; using Wide = double;
 };
 template<> struct Ad<double> {
   using C = std::less<double>; static const char* name() { return "f64"; } static const bool has_nan = true;
   static double mk(long v) { if (v == 99999) return INFINITY; if (v == -99999) return -INFINITY; return (double)v * 0.25; }
   static double key(const double& x) { return x; }
   static double nan() { return std::nan("3"); } static size_t item_bytes() { return 8; }
+  using RC = std::greater<double>; using Wide = void;
 };
 template<> struct Ad<int64_t> {
   using C = std::less<int64_t>; static const char* name() { return "i64"; } static const bool has_nan = false;
   static int64_t mk(long v) { return (int64_t)v * 1000003LL; } static double key(const int64_t& x) { return (double)x; }
   static int64_t nan() { return 0; } static size_t item_bytes() { return 8; }
+  using RC = std::greater<int64_t>; using Wide = double;
 };
 template<> struct Ad<std::string> {
   using C = std::greater<std::string>; static const char* name() { return "str"; } static const bool has_nan = false;
   static std::string mk(long v) { char b[16]; snprintf(b, sizeof b, "%07ld", v + 1000000); return b; }
   static double key(const std::string& x) { return -(double)(atol(x.c_str()) - 1000000); }   // reversing comparator
   static std::string nan() { return ""; } static size_t item_bytes() { return 4 + 7; }
+  using RC = std::less<std::string>; using Wide = void;
 };
 
 // ---------------------------------------------------------------------------------------------------------------
@@ -71,6 +75,7 @@ template<> struct Ad<std::string> {
 // ---------------------------------------------------------------------------------------------------------------
 template<class T> struct KllF {
   using Sk = kll_sketch<T, typename Ad<T>::C>;
+  template<class U> using Fam = KllF<U>; template<class U, class C2> using SkOf = kll_sketch<U, C2>;
   static long num_levels(const Sk& s) {   // "Levels" of to_string()
     std::string t = s.to_string(); size_t p = t.find("Levels"); p = p == std::string::npos ? p : t.find(':', p);
     return p == std::string::npos ? -1 : atol(t.c_str() + p + 1);
@@ -85,6 +90,7 @@ template<class T> struct KllF {
   static const char* name() { return "kll"; }
   static Sk make(unsigned k, bool) { return Sk((uint16_t)k); }
   static void on_new(Ev&, const Sk&) {}
+  static unsigned min_k() { return 8; }
   static unsigned draw_k(vt::Rng& g, long maxk) { return g.chance(50) ? 8 : (unsigned)g.range(8, maxk); }
   // the space the sketch publishes: serialized size against get_max_serialized_size_bytes(k, n)
   template<class TT = T, typename std::enable_if<std::is_arithmetic<TT>::value, int>::type = 0>
@@ -98,6 +104,7 @@ template<class T> struct KllF {
 };
 template<class T> struct ReqF {
   using Sk = req_sketch<T, typename Ad<T>::C>;
+  template<class U> using Fam = ReqF<U>; template<class U, class C2> using SkOf = req_sketch<U, C2>;
   static void published(const Sk&, long long& pk, double& eps, double& eps_pk) { pk = 0; eps = 0; eps_pk = 0; }
   static long num_levels(const Sk&) { return -1; }
   template<class TT = T, typename std::enable_if<!std::is_arithmetic<TT>::value, int>::type = 0>
@@ -129,6 +136,7 @@ template<class T> struct ReqF {
     for (;;) { ssr = ssr / sqrtf(2); unsigned ne = nearest_even(ssr); if (ne < req_constants::MIN_K) break; secs.push_back(ne); }
     e.il("secs", secs);
   }
+  static unsigned min_k() { return 4; }
   static unsigned draw_k(vt::Rng& g, long maxk) { return g.chance(50) ? 4 : (unsigned)g.range(4, maxk); }
   // the space the sketch publishes: retained items against "Capacity items" of to_string()
   static void space(const Sk& s, long long& used, long long& bound) {
@@ -139,6 +147,7 @@ template<class T> struct ReqF {
 };
 template<class T> struct ClassicF {
   using Sk = quantiles_sketch<T, typename Ad<T>::C>;
+  template<class U> using Fam = ClassicF<U>; template<class U, class C2> using SkOf = quantiles_sketch<U, C2>;
   static long num_levels(const Sk&) { return -1; }
   static void mechanism(Ev&, const Sk&) {}
   static void published(const Sk& s, long long& pk, double& eps, double& eps_pk) {
@@ -147,6 +156,7 @@ template<class T> struct ClassicF {
   static const char* name() { return "classic"; }
   static Sk make(unsigned k, bool) { return Sk((uint16_t)k); }
   static void on_new(Ev&, const Sk&) {}
+  static unsigned min_k() { return 2; }
   static unsigned draw_k(vt::Rng& g, long maxk) { unsigned k = 2; while (k * 2 <= (unsigned)maxk && g.chance(55)) k *= 2; return k; }
   static void space(const Sk&, long long& used, long long& bound) { used = 0; bound = 0; }   // documented formula, computed by the specification
 };
@@ -271,6 +281,49 @@ template<class F, class T, class Sk> static void full_obs(Ev& e, const Sk& s, vt
   e.b("cdfok", ok && cI.size() == sp.size() + 1 && pI.size() == sp.size() + 1);
 }
 
+// a user serde that does not check the stream (the library's own serdes throw themselves): the sketch readers' stream checks must
+// still reject a truncated image, after the items were handed over to the sketch's deleter
+template<class T> struct lenient_serde {
+  void serialize(std::ostream& os, const T* items, unsigned num) const { os.write(reinterpret_cast<const char*>(items), sizeof(T) * num); }
+  void deserialize(std::istream& is, T* items, unsigned num) const { is.read(reinterpret_cast<char*>(items), sizeof(T) * num); }
+  size_t serialize(void* ptr, size_t, const T* items, unsigned num) const { memcpy(ptr, items, sizeof(T) * num); return sizeof(T) * num; }
+  size_t deserialize(const void* ptr, size_t, T* items, unsigned num) const { memcpy(items, ptr, sizeof(T) * num); return sizeof(T) * num; }
+  size_t size_of_item(const T&) const { return sizeof(T); }
+};
+// type-converting copy to the widened item type (same order): must be the same sketch
+template<class F, class T, class Sk, typename std::enable_if<!std::is_void<typename Ad<T>::Wide>::value, int>::type = 0>
+static void convert_wide(const Sk& s, int src, int dst) {
+  using U = typename Ad<T>::Wide; using F2 = typename F::template Fam<U>;
+  typename F2::Sk c(s);
+  Ev e("Convert"); e.i("src", src).i("dst", dst).str("to", Ad<U>::name());
+  scalars<F2, U>(e, c); iterate<F2, U>(e, c, nullptr); e.emit();
+  Ev("Destroy").i("id", dst).emit();
+}
+template<class F, class T, class Sk, typename std::enable_if<std::is_void<typename Ad<T>::Wide>::value, int>::type = 0>
+static void convert_wide(const Sk&, int, int) {}
+// type-converting copy under the REVERSED comparator: levels above level 0 that hold two different items are no longer sorted
+template<class F, class T, class Sk> static void convert_reversed(const Sk& s, int id) {
+  bool distinct = false; std::map<unsigned long long, double> first;
+  for (auto it = s.begin(); it != s.end(); ++it) { auto p = *it; if (p.second < 2) continue; double kx = Ad<T>::key(p.first);
+    auto f = first.find(p.second); if (f == first.end()) first[p.second] = kx; else if (f->second != kx) distinct = true; }
+  bool threw = false;
+  try { typename F::template SkOf<T, typename Ad<T>::RC> c(s); (void)c.get_n(); } catch (const std::exception&) { threw = true; }
+  Ev("ConvertReversed").i("id", id).b("distinct", distinct).b("threw", threw).emit();
+}
+// a strict prefix of the sketch's image through deserialize(istream) with the lenient serde: must be rejected
+template<class T, class Sk, typename std::enable_if<std::is_arithmetic<T>::value, int>::type = 0>
+static void trunc_stream(const Sk& s, int id, vt::Rng& g) {
+  auto img = s.serialize(0, lenient_serde<T>());
+  if (img.size() < 9) return;
+  size_t cut = g.chance(60) ? img.size() - 1 - g.below(std::min<size_t>(img.size() - 1, 4 * sizeof(T))) : 1 + g.below(img.size() - 1);
+  std::istringstream is(std::string((const char*)img.data(), cut));
+  bool threw = false;
+  try { Sk r = Sk::deserialize(is, lenient_serde<T>()); (void)r.get_n(); } catch (const std::exception&) { threw = true; }
+  Ev("TruncStream").i("id", id).i("size", (long long)img.size()).i("cut", (long long)cut).b("threw", threw).emit();
+}
+template<class T, class Sk, typename std::enable_if<!std::is_arithmetic<T>::value, int>::type = 0>
+static void trunc_stream(const Sk&, int, vt::Rng&) {}
+
 // ---------------------------------------------------------------------------------------------------------------
 // one segment = one family x one item type
 // ---------------------------------------------------------------------------------------------------------------
@@ -296,10 +349,10 @@ template<class F, class T> static void segment(vt::Rng& g, long seg, long events
   const bool hra = g.chance(50);
   uint64_t opseed = g.next();
   auto drop_twin = [&](int i) { if (tw[i]) { tw[i].reset(); Ev("Destroy").i("id", TW + i).b("restored", true).emit(); } };
-  auto mk = [&](int i) {
+  auto mk = [&](int i, unsigned kforce = 0) {
     drop_twin(i);
     if (sk[i]) Ev("Destroy").i("id", i).emit();
-    unsigned k = F::draw_k(g, maxk);
+    unsigned k = kforce ? kforce : F::draw_k(g, maxk);
     sk[i].reset(new Sk(F::make(k, hra)));
     shape[i].kind = (int)g.below(5); shape[i].lo = g.range(-300, 300); shape[i].hi = shape[i].lo + (g.chance(40) ? g.range(2, 30) : g.range(100, 4000));
     shape[i].cur = shape[i].kind == 1 ? shape[i].hi : shape[i].lo;
@@ -361,6 +414,13 @@ template<class F, class T> static void segment(vt::Rng& g, long seg, long events
       int j = (int)g.below(NS);
       if (j == i || !sk[j] || s.get_n() + sk[j]->get_n() > (uint64_t)maxn) continue;
       const bool rv = g.chance(50);
+      // merge into an EMPTY target (equal k, larger k, smaller k): it must come out as the source
+      if (g.chance(15)) {
+        const unsigned ksrc = sk[j]->get_k(); const int c = (int)g.below(3);
+        mk(i, c == 0 ? ksrc : c == 1 ? std::min<unsigned>(ksrc * 2, (unsigned)maxk) : std::max<unsigned>(ksrc / 2, F::min_k()));
+        observe(j, os + 11);
+      }
+      Sk& s = *sk[i];
       // merge paths that depend on the source's shape: every third merge first brings the source to an n that is an exact multiple of
       // 2 * k (classic: empty base buffer, levels only) by plain updates
       if (g.chance(35)) {
@@ -384,6 +444,9 @@ template<class F, class T> static void segment(vt::Rng& g, long seg, long events
       observe(i, os + 5);
     } else if (op < upd + 17) {
       observe(i, os);
+      if (g.chance(12)) convert_wide<F, T>(*sk[i], i, 30);
+      if (g.chance(8) && !sk[i]->is_empty()) convert_reversed<F, T>(*sk[i], i);
+      if (g.chance(12)) trunc_stream<T>(*sk[i], i, g);
     } else if (op < upd + 22) {
       // invalid queries must throw
       struct Q { const char* what; std::function<void(const Sk&)> f; };
